@@ -342,11 +342,8 @@ func (t *tr) cmpConst(fn, xs string, op token.Token) int64 {
 	}
 	var found []int64
 	flip := map[token.Token]token.Token{token.LSS: token.GTR, token.GTR: token.LSS, token.LEQ: token.GEQ, token.GEQ: token.LEQ, token.MUL: token.MUL, token.ADD: token.ADD}
-	// x > n == x >= n+1, x < n == x <= n-1, x >= n == x > n-1, x <= n == x < n+1 (integers)
-	alt := map[token.Token]struct {
-		op token.Token
-		d  int64
-	}{token.GTR: {token.GEQ, -1}, token.LSS: {token.LEQ, 1}, token.GEQ: {token.GTR, 1}, token.LEQ: {token.LSS, -1}}
+	// (no strict/non-strict rewriting: `x >= n` next to an expected `x > n` may just as well be the opposite bound of a
+	// range test written the other way round, and a wrongly read constant would be worse than an unread one)
 	assignOp := map[token.Token]token.Token{token.MUL: token.MUL_ASSIGN, token.ADD: token.ADD_ASSIGN}
 	want := normExpr(xs)
 	scan := func(body *ast.BlockStmt) {
@@ -360,10 +357,6 @@ func (t *tr) cmpConst(fn, xs string, op token.Token) int64 {
 				} else if f, ok := flip[op]; ok && x.Op == f && normExpr(exprString(x.Y)) == want {
 					if v, ok := intLit(x.X); ok {
 						found = append(found, v)
-					}
-				} else if a, ok := alt[op]; ok && x.Op == a.op && normExpr(exprString(x.X)) == want {
-					if v, ok := intLit(x.Y); ok {
-						found = append(found, v+a.d)
 					}
 				}
 			case *ast.AssignStmt: // res *= 10000
